@@ -128,3 +128,114 @@ def aggregate(rep, jobs):
         for f in r["fails"]:
             rep.violation(f)
         rep.add_class("stream:trigger_sufficiency:" + r["mode"], r["evals"])
+
+
+# ------------------------------------------------------------------------------------- event x watcher matrix
+KINDS = ["min", "max", "both", "ground"]
+
+
+def event_model(rnd, wtype, kind):
+    """A watcher constraint W on fresh variables plus a 'mover' relation(z, v) whose single execution moves exactly the
+    bounds `kind` of one variable v of W. Returns (model, mover variables) or None."""
+    for _ in range(30):
+        box, params = gen.gen_call(rnd, wtype, {"max_arity": 4, "width": 4, "allow_all_zero": False})
+        n = len(box)
+        cands = [i for i in range(n) if box[i][1] - box[i][0] >= (2 if kind != "ground" else 1)]
+        if wtype in ("and", "exactly_true"):
+            cands = [i for i in range(n) if box[i] == [0, 1]] if kind in ("min", "max", "ground") else []
+        if not cands:
+            continue
+        i = rnd.choice(cands)
+        a, b = box[i]
+        if kind == "min":
+            t = [0, a + 1, 1, b]
+        elif kind == "max":
+            t = [0, a, 1, b - 1]
+        elif kind == "both":
+            t = [0, a + 1, 1, b - 1]
+        else:
+            c = rnd.randint(a, b)
+            t = [0, c, 1, c]
+        doms = [list(x) for x in box] + [[0, 1]]
+        z = n
+        model = {"doms": doms, "idx": list(range(n + 1)), "off": [0] * (n + 1),
+                 "props": [[list(range(n)), wtype, params], [[z, i], "relation", t]]}
+        if wtype in ("no_sub_cycle", "scc"):
+            # contract: the circuit constraints are posted together with alldifferent on the same variables
+            model["props"].insert(1, [list(range(n)), "alldifferent", []])
+        return model, [z, i]
+    return None
+
+
+def run_event_matrix(task):
+    """For every constraint type x event kind: root pass (and full search) with the watcher run before the mover
+    (schedule injection) and in the engine's own order, judged by the fixpoint monitor and by O-brute."""
+    from framework import modelrun
+
+    t0 = time.time()
+    rnd = random.Random(task["seed"])
+    res = {"evals": 0, "fails": [], "fail_counts": {}, "hashes": [], "samples": [], "mode": MODE, "cells": {},
+           "counters": {}}
+    types = [t for t in O.TYPES if t != "dummy"]
+    for rep in range(task.get("repeats", 3)):
+        for wtype in types:
+            for kind in KINDS:
+                em = event_model(rnd, wtype, kind)
+                if em is None:
+                    continue
+                model, mover = em
+                if O.model_points(model) > 20000:
+                    continue
+                exp = sorted(O.brute(model))
+                for forced in ((True, False) if MODE == "interp" else (False,)):
+                    spec = {"budget": {}, "fixpoint": {}} if MODE == "interp" else None
+                    if forced:
+                        spec["schedule"] = {"seed": rep, "delay_vars": mover}
+                    out = modelrun.run_enum(model, {"calg": "bc", "vh": "first", "dh": "min"}, spec)
+                    res["evals"] += 1
+                    res["cells"]["%s/%s" % (wtype, kind)] = 1
+                    for k, v in out.monitor_counts.items():
+                        if isinstance(v, (int, float)) and "max_" not in k and not k.endswith("limit"):
+                            res["counters"][k] = res["counters"].get(k, 0) + v
+                    fails = [f for f in out.monitor_fails if f["prop"] == "C08"]
+                    if out.error:
+                        fails.append({"prop": "C08", "kind": "event_matrix_run_failed:" + out.error,
+                                      "detail": str(out.error_detail)})
+                    elif sorted(out.solutions) != exp:
+                        fails.append({"prop": "C08", "kind": "solutions_differ_in_event_matrix",
+                                      "detail": "%d solutions, brute force %d" % (len(out.solutions), len(exp))})
+                    for f in fails:
+                        key = "%s|%s|%s" % (f["kind"], wtype, kind)
+                        c = res["fail_counts"].get(key, 0)
+                        res["fail_counts"][key] = c + 1
+                        if c < 2:
+                            res["fails"].append(dict(f, model=model, cfg={"calg": "bc", "vh": "first", "dh": "min"},
+                                                     mode=MODE, where="event_matrix:%s:%s:%s" % (
+                                                         wtype, kind, "watcher_first" if forced else "engine_order")))
+                res["hashes"].append(hash((wtype, kind, rep, str(model))))
+                if len(res["samples"]) < 2 and kind == "both":
+                    res["samples"].append({"watcher": wtype, "kind": kind, "model": model})
+    res["wall"] = time.time() - t0
+    return res
+
+
+def aggregate_matrix(rep, jobs):
+    cells = set()
+    for j in jobs:
+        if j.status != "ok":
+            rep.job_problem(j)
+            continue
+        r = j.result
+        rep.evaluations += r["evals"]
+        rep.count("event_matrix.runs", r["evals"])
+        cells.update(r["cells"])
+        for k, v in r["counters"].items():
+            rep.count(k, v)
+        if isinstance(rep.distinct, set):
+            rep.distinct.update("e%d" % h for h in r["hashes"])
+        for s in r["samples"][:1]:
+            rep.sample(s)
+        for f in r["fails"]:
+            rep.violation(f)
+        rep.add_class("stream:event_matrix:" + r["mode"], r["evals"])
+    rep.counters["event_matrix.(type,event) cells"] = len(cells)
